@@ -75,15 +75,17 @@ package rtmp
 //@   requires 1 <= len(message) && len(message) < 1<<24 && 2 <= header.Csid && header.Csid <= 65599
 //@   let m = bhl(header.Csid)
 //@   let extn = header.TimestampAbs >= 0xFFFFFF ? 4 : 0
+//@   let n = (len(message) + chunkSize - 1) / chunkSize
+//@   loop 1 invariant [C08.chunks.count] thorough numOfChunk == n && lastChunkSize == len(message) - (n-1)*chunkSize
 //@   loop 1 invariant 0 <= i && i <= numOfChunk && 0 <= index && index <= i*(chunkSize+18) && (i == numOfChunk ==> index <= len(out)) && fresh(out)
 //@   loop 1 invariant (i == 0) == (prevHeader == nil) && (i > 0 ==> prevHeader == header)
-//@   loop 1 invariant [C08.chunks.len] thorough index == (i == 0 ? 0 : m + 11 + extn + (i-1)*(m + extn) + i*chunkSize)
+//@   loop 1 invariant [C08.chunks.len] thorough index == (i == 0 ? 0 : m + 11 + extn + (i-1)*(m + extn) + (i == numOfChunk ? len(message) : i*chunkSize))
 //@   loop 1 decreases numOfChunk - i
 //@   loop 1 step [C08.chunk.hdr]  headLen == (old(i) == 0 ? m + 11 + extn : m + extn)
 //@   loop 1 step [C08.chunk.size] index - old(index) - headLen == (old(i) == numOfChunk-1 ? lastChunkSize : chunkSize)
 //@   loop 1 step [C08.chunk.body] slow: forall j in [0, index - old(index) - headLen) :: out[old(index)+headLen+j] == message[old(i)*chunkSize+j]
 //@   ensures [C08.fresh] fresh(result)
-//@   ensures [C08.total] thorough len(result) == len(message) + m + 11 + extn + (numOfChunk-1)*(m+extn)
+//@   ensures [C08.total] thorough len(result) == len(message) + m + 11 + extn + (n-1)*(m+extn)
 //@ end
 
 // ---- AMF0 readers (C18 totality/bounds/termination, C04) -----------------------------------------------------------
